@@ -21,9 +21,13 @@ func main() {
 	selftest := flag.Bool("selftest", false, "run the checker's own fixtures")
 	seed := flag.String("seed", "", "directory of a seeded change (patch.diff): evaluate -p on the tree with the change applied in memory")
 	seedAll := flag.Bool("seedall", false, "evaluate every seeded change under /verif/seeded with its property and print the kill matrix")
+	swallow := flag.String("discover-swallow", "", "rule discovery aid: comma-separated package patterns; lists error calls whose failure can reach a success exit")
 	doc := flag.Bool("doc", false, "print the per-property documentation (markdown) from the rule registry")
 	flag.Parse()
 	rules.Finalize()
+	if *swallow != "" {
+		os.Exit(discoverSwallow(*swallow))
+	}
 	if *doc {
 		for _, id := range rules.IDs() {
 			p := rules.Get(id)
